@@ -761,22 +761,29 @@ def r06_9(rep: Report) -> None:
     from ..flow import Disjunctive
     from ..pathcond import PathCond, atoms_of, entails as pc_entails, f_or, show as pc_show
     rid = 'R06.9'
+    from ..core import subst_locals
     tree = rep.repo.tree(REP)
     cls = need(find_class(tree, 'Representation'), 'Representation')
     methods = {m.name: m for _c, m in rep.repo.expanded_functions(REP) if _c is cls}
 
     def wraps_itself(fn: ast.AST) -> bool:
+        """an index is compared with num_media_segments (directly or through a local that names it) and
+        put back to a constant / the first number in one of the branches; or a modulo by it"""
         for n in ast.walk(fn):
-            if isinstance(n, ast.BinOp) and isinstance(n.op, ast.Mod) and 'num_media_segments' in norm(n.right):
+            if isinstance(n, ast.BinOp) and isinstance(n.op, ast.Mod) and 'num_media_segments' in norm(subst_locals(fn, n.right)):
                 return True
-            if isinstance(n, ast.If) and isinstance(n.test, ast.Compare) and len(n.test.ops) == 1 \
-                    and isinstance(n.test.ops[0], (ast.Gt, ast.GtE, ast.Eq)) and isinstance(n.test.left, ast.Name) \
-                    and 'num_media_segments' in norm(n.test.comparators[0]):
-                v = n.test.left.id
-                if any(isinstance(a_, ast.Assign) and len(a_.targets) == 1 and norm(a_.targets[0]) == v
-                       and (isinstance(a_.value, ast.Constant) or norm(a_.value).endswith('start_number'))
-                       for b_ in n.body for a_ in ast.walk(b_)):
-                    return True
+            if isinstance(n, ast.If) and isinstance(n.test, ast.Compare) and len(n.test.ops) == 1:
+                sides = [n.test.left, n.test.comparators[0]]
+                names = [x for x in sides if isinstance(x, ast.Name)]
+                if not names or not any('num_media_segments' in norm(subst_locals(fn, x)) for x in sides):
+                    continue
+                for v in names:
+                    if 'num_media_segments' in norm(subst_locals(fn, v)):
+                        continue
+                    if any(isinstance(a_, ast.Assign) and len(a_.targets) == 1 and norm(a_.targets[0]) == v.id
+                           and (isinstance(a_.value, ast.Constant) or norm(a_.value).endswith('start_number'))
+                           for b_ in list(n.body) + list(n.orelse) for a_ in ast.walk(b_)):
+                        return True
         return False
     wrapping = {name for name, m in methods.items() if wraps_itself(m)}
     if not wrapping:
